@@ -220,19 +220,21 @@ ATTR_CTX = {
 }
 
 
-def make_attr(ctx, nsym):
+def make_attr(ctx, nsym, first=None):
+    """first = (lo, hi): the first symbol ranges over ALPHA[lo:hi] only (partition)"""
     pre, post, cls = ATTR_CTX[ctx]
     na = len(ALPHA)
+    lo, hi = first if first is not None else (0, na)
 
     def ob(k1: int, k2: int, k3: int) -> bool:
-        mid = ALPHA[pick(k1, na)]
+        mid = ALPHA[lo + pick(k1, hi - lo)]
         if nsym >= 2:
             mid += ALPHA[pick(k2, na)]
         if nsym >= 3:
             mid += ALPHA[pick(k3, na)]
         with NoTracing():
             return acceptable(cls, pre + mid + post)
-    ob.__name__ = 'ob_attr_%s_%d' % (ctx, nsym)
+    ob.__name__ = 'ob_attr_%s_%d_%d' % (ctx, nsym, lo)
     return ob
 
 
@@ -565,12 +567,15 @@ for _k in SPLICE:
                           selectors='splice length 0..%d' % _m, outside='more than %d symbolic code points per splice' % _m))
 NSYM = tier(2, 3)
 for _c in ATTR_CTX:
-    OBLIGATIONS.append(Ob('attr_%s' % _c, make_attr(_c, NSYM), ['0 <= k1 < %d' % len(ALPHA), '0 <= k2 < %d' % len(ALPHA), '0 <= k3 < %d' % len(ALPHA)],
-                          timeout=tier(240, 1500), path_timeout=30,
-                          data='%d attribute characters over the class-representative alphabet (%d atoms computed from the live patterns)' % (NSYM, len(ALPHA)),
-                          selectors='context %r ... %r' % ATTR_CTX[_c][:2],
-                          outside='attribute text longer than %d symbols; characters are representatives of the atoms of the partition induced by the scanner and parse_params patterns (later stages - Eval, int(), dict lookups - may distinguish more)' % NSYM,
-                          stubs='cook() runs untraced on the per-path concrete source'))
+    _parts = [(0, len(ALPHA))] if NSYM == 2 else [(i, min(len(ALPHA), i + 5)) for i in range(0, len(ALPHA), 5)]
+    for _lo, _hi in _parts:
+        OBLIGATIONS.append(Ob('attr_%s%s' % (_c, '' if len(_parts) == 1 else '_p%d' % _lo), make_attr(_c, NSYM, (_lo, _hi)),
+                              ['0 <= k1 < %d' % (_hi - _lo), '0 <= k2 < %d' % len(ALPHA), '0 <= k3 < %d' % len(ALPHA)],
+                              timeout=tier(240, 1500), path_timeout=30,
+                              data='%d attribute characters over the class-representative alphabet (%d atoms computed from the live patterns)' % (NSYM, len(ALPHA)),
+                              selectors='context %r ... %r; first symbol in atoms [%d,%d)' % (ATTR_CTX[_c][0], ATTR_CTX[_c][1], _lo, _hi),
+                              outside='attribute text longer than %d symbols; characters are representatives of the atoms of the partition induced by the scanner and parse_params patterns (later stages - Eval, int(), dict lookups - may distinguish more)' % NSYM,
+                              stubs='cook() runs untraced on the per-path concrete source'))
 def seq_obs(syn, length, vocab, nparts, nlmax, label):
     nv = len(vocab)
     step = (nv + nparts - 1) // nparts
